@@ -23,10 +23,11 @@ import tempfile
 
 from harness import core, gen, histcheck, isoapi
 
-LEAN_MODULES = ['Pycdlib.Props.C11', 'Pycdlib.Props.C11Parse']
+LEAN_MODULES = ['Pycdlib.Props.C11', 'Pycdlib.Props.C11Parse', 'Pycdlib.Props.C11VdOrder']
 THEOREMS = ['Pycdlib.Boot.validation_sum', 'Pycdlib.Boot.catalog_length', 'Pycdlib.Boot.catalog_fits', 'Pycdlib.Boot.entry_fields',
             'Pycdlib.Boot.floppy_media', 'Pycdlib.Boot.last_header', 'Pycdlib.Boot.nonlast_header',
-            'Pycdlib.Boot.catalog_parse_roundtrip', 'Pycdlib.Boot.without_rule_next_sector_decides']
+            'Pycdlib.Boot.catalog_parse_roundtrip', 'Pycdlib.Boot.without_rule_next_sector_decides',
+            'Pycdlib.VdOrder.boot_record_at_17', 'Pycdlib.VdOrder.order_length']
 PARTIAL = {
     'load_rba_points_partial': 'that every load address equals the first data sector of the chosen boot content after any history is '
     'decided by the reader oracle per scenario (the layout composition is not one theorem yet)',
@@ -256,6 +257,7 @@ def scenario(ctx, rng, tmpdir):
                 except Exception as e:  # noqa
                     ctx.notes.append('duplicate_pvd refused: %r' % e)
         ctx.dist['pvd-copies:%d' % dups] += 1
+        vd_counts = (len(iso.pvds), len(iso.brs), len(iso.svds), len(iso.vdsts))
         # correspondence: catalog bytes
         cat = iso.eltorito_boot_catalog
         path = os.path.join(tmpdir, 'b%d.iso' % rng.randrange(10 ** 12))
@@ -276,6 +278,17 @@ def scenario(ctx, rng, tmpdir):
     # oracle on the written bytes
     rep = isoapi.read_image(ctx, path)
     img = open(path, 'rb').read()
+    # order of the volume descriptors (Model/VdOrder, theorem boot_record_at_17): types read from sector 16 on
+    types = []
+    sec = 16
+    while (sec + 1) * 2048 <= len(img) and img[sec * 2048 + 1: sec * 2048 + 6] == b'CD001':
+        types.append(img[sec * 2048])
+        sec += 1
+    want_order = ctx.driver.ask(['vdorder %d %d %d %d' % vd_counts])[0].split()[0]
+    ctx.traces_validated += 1
+    if '.'.join(str(t) for t in types) != want_order:
+        ctx.disagree('S-layout/vdorder', 'volume descriptor types from sector 16: image %s, model %s for (pvds, brs, svds, vdsts) = %s' % (types, want_order, vd_counts),
+                     {'kind': 'scenario', 'seed': scenario.seed})
     # the catalog as the library reads it back vs the model's parser, on the image and on a few damaged catalogs
     rp_cat = {'kind': 'scenario', 'seed': scenario.seed}
     catalog_read_corr(ctx, img, 'scenario', rp_cat, must_open=True)
@@ -429,6 +442,20 @@ def scenario(ctx, rng, tmpdir):
             bad = [n for n in gone if b'boot.cat' not in bytes.fromhex(n[2].split('/')[-1] or '00').lower()]
             if bad or names2 - names1:
                 viol('C11.rm-eltorito/other-entries', 'rm_eltorito changed entries other than the catalog: removed %s added %s' % (bad[:3], list(names2 - names1)[:3]))
+            # the former boot files are ordinary files again: the bytes that were supplied, no boot info table
+            img2 = out.getvalue()
+            ents2 = isoapi.parse_entries([e for e in rep2.entries if e.startswith('I:F:')])
+            for b in boots:
+                if b['name'] in unlinked or b['name'] == iso_only and False:
+                    continue
+                key = ('I', 'F', '/'.join([''] + [c.encode('utf-8').hex() for c in b['name'].split('/') if c]))
+                a = ents2.get(key)
+                if a is None or a['loc'] in ('0', 'b-'):
+                    continue
+                loc = int(a['loc'])
+                if img2[loc * 2048: loc * 2048 + len(b['data'])] != b['data']:
+                    viol('C11.rm-eltorito/boot-file-content', 'after rm_eltorito the former boot file %s does not hold the bytes it was given%s' % (
+                        b['name'], ' (the boot info table is still patched in)' if b['kw'].get('boot_info_table') else ''))
             for e in rep2.errs:
                 if not e.startswith('unsorted-ecma'):     # ordering is C03's recorded finding, nothing to do with El Torito
                     viol('C11.rm-eltorito/reader-%s' % e.split(':')[0], 'after rm_eltorito: %s' % e[:120])
@@ -696,9 +723,124 @@ def probe_full_catalog(ctx):
                 pass        # reported above
 
 
+def probe_catalog_names(ctx):
+    """(1) a user file with the boot catalog's name in another directory of the same name is NOT the boot catalog;
+    (2) a name of the boot catalog taken away with rm_hard_link, then rm_eltorito: exactly El Torito goes away"""
+    import pycdlib
+    rp = {'kind': 'probe-catalog-names'}
+    with isoapi.frozen_time():
+        iso = pycdlib.PyCdlib()
+        iso.new()
+        for d in ('/A', '/A/DIR1', '/B', '/B/DIR1'):
+            iso.add_directory(d)
+        iso.add_fp(io.BytesIO(b'user file\n'), 10, '/B/DIR1/BOOT.CAT;1')
+        iso.add_fp(io.BytesIO(b'b' * 2048), 2048, '/BOOT.;1')
+        iso.add_eltorito('/BOOT.;1', bootcatfile='/A/DIR1/BOOT.CAT;1')
+        for stage in ('live', 'reopened'):
+            r = io.BytesIO()
+            try:
+                iso.get_file_from_iso_fp(r, iso_path='/B/DIR1/BOOT.CAT;1')
+            except Exception as e:  # noqa
+                r = io.BytesIO(repr(e).encode())
+            ctx.count(key=('catalog-namesake', stage), nontrivial=True, kind='probe:catalog-namesake')
+            if r.getvalue() != b'user file\n':
+                ctx.violation('C11.catalog-namesake', 'a 10-byte user file /B/DIR1/BOOT.CAT;1 reads back as %d bytes (%s) while the boot catalog is /A/DIR1/BOOT.CAT;1' % (
+                    len(r.getvalue()), stage), rp)
+            if stage == 'live':
+                out = io.BytesIO()
+                iso.write_fp(out)
+                iso.close()
+                iso = pycdlib.PyCdlib()
+                iso.open_fp(io.BytesIO(out.getvalue()))
+        iso.close()
+        for kw, names, rms in (({}, {}, [{'iso_path': '/BOOT.CAT;1'}]),
+                               ({'joliet': 3}, {'joliet_bootcatfile': '/boot.cat'}, [{'joliet_path': '/boot.cat'}]),
+                               ({'udf': '2.60'}, {'udf_bootcatfile': '/boot.cat'}, [{'udf_path': '/boot.cat'}, {'iso_path': '/BOOT.CAT;1'}]),
+                               ({'rock_ridge': '1.09'}, {}, [{'iso_path': '/BOOT.CAT;1'}])):
+            iso = pycdlib.PyCdlib()
+            iso.new(**kw)
+            for n in ('BOOT', 'AAA', 'CCC'):
+                iso.add_fp(io.BytesIO(n.encode() + b'\n'), len(n) + 1, '/%s.;1' % n, **({'rr_name': n.lower()} if 'rock_ridge' in kw else {}))
+            try:
+                iso.add_eltorito('/BOOT.;1', '/BOOT.CAT;1', **names)
+                for r_ in rms:
+                    iso.rm_hard_link(**r_)
+                iso.rm_eltorito()
+                out = io.BytesIO()
+                iso.write_fp(out)
+                g = pycdlib.PyCdlib()
+                g.open_fp(io.BytesIO(out.getvalue()))
+                left = sorted(c.file_identifier() for c in g.list_children(iso_path='/') if not c.is_dot() and not c.is_dotdot())
+                space = g.pvd.space_size
+                g.close()
+                if left != [b'AAA.;1', b'BOOT.;1', b'CCC.;1'] or space * 2048 != len(out.getvalue()):
+                    ctx.violation('C11.catalog-unlink-then-rm/other-entries', 'after rm_hard_link of the catalog name(s) and rm_eltorito the root holds %s, image %d sectors, declared %d (%s)' % (
+                        left, len(out.getvalue()) // 2048, space, kw), rp)
+            except Exception as e:  # noqa
+                ctx.violation('C11.catalog-unlink-then-rm/%s' % isoapi.exc_class(e), 'rm_hard_link of the catalog name(s), rm_eltorito, write, open: %r (%s)' % (e, kw), rp)
+            finally:
+                try:
+                    iso.close()
+                except Exception:  # noqa
+                    pass
+            ctx.count(key=('catalog-unlink', tuple(sorted(kw))), nontrivial=True, kind='probe:catalog-unlink-then-rm')
+
+
+def probe_inplace_boot_table(ctx):
+    """a boot file with a boot info table replaced in place (same number of sectors, other length): the table as stored
+    and as read back describes the NEW file - sector, length and checksum (model `bit`)"""
+    import pycdlib
+    tmpdir = tempfile.mkdtemp(prefix='verif-c11i-')
+    path = os.path.join(tmpdir, 'i.iso')
+    try:
+        for old_len, new_len in ((3000, 2500), (3000, 3000), (3000, 4096), (2048, 100), (100, 2048)):
+            rp = {'kind': 'probe-inplace-boot-table', 'old': old_len, 'new': new_len}
+            with isoapi.frozen_time():
+                iso = pycdlib.PyCdlib()
+                iso.new(interchange_level=3)
+                iso.add_fp(io.BytesIO(bytes((i * 5 + 1) % 251 for i in range(old_len))), old_len, '/BOOT.;1')
+                iso.add_eltorito('/BOOT.;1', boot_info_table=True, boot_load_size=4)
+                iso.write(path)
+                iso.close()
+            new = bytes((i * 3 + 7) % 253 for i in range(new_len))
+            g = pycdlib.PyCdlib()
+            try:
+                g.open(path, 'r+b')
+                g.modify_file_in_place(io.BytesIO(new), new_len, '/BOOT.;1')
+                g.close()
+            except Exception as e:  # noqa
+                ctx.violation('C11.inplace-boot-table/%s' % isoapi.exc_class(e), 'modify_file_in_place on a boot file with a boot info table (%d -> %d bytes): %r' % (old_len, new_len, e), rp)
+                continue
+            ctx.count(key=('inplace-boot-table', old_len, new_len), nontrivial=old_len != new_len, kind='probe:inplace-boot-table')
+            rep = isoapi.read_image(ctx, path)
+            bents = [e for e in rep.entries if e.startswith('B:')]
+            if not bents:
+                ctx.violation('C11.inplace-boot-table/no-entry', 'no boot entry after the in-place replacement', rp)
+                continue
+            rba = int([x for x in bents[0].split(':') if x.startswith('rba')][0][3:])
+            want = bytes.fromhex(ctx.driver.ask(['bit 16 %d %d %s' % (rba, new_len, new.hex())])[0])
+            expect = new[:8] + want + new[64:]
+            stored = open(path, 'rb').read()[rba * 2048: rba * 2048 + len(expect)]
+            h = pycdlib.PyCdlib()
+            h.open(path)
+            r = io.BytesIO()
+            h.get_file_from_iso_fp(r, iso_path='/BOOT.;1')
+            h.close()
+            if stored != expect:
+                ctx.violation('C11.inplace-boot-table/stored', 'after replacing the boot file in place (%d -> %d bytes) the stored boot info table is %s, expected %s' % (
+                    old_len, new_len, stored[8:24].hex(), expect[8:24].hex()), rp)
+            if r.getvalue() != expect[:new_len]:
+                ctx.violation('C11.inplace-boot-table/read-back', 'after replacing the boot file in place (%d -> %d bytes) the file reads back with table %s, expected %s' % (
+                    old_len, new_len, r.getvalue()[8:24].hex(), expect[8:24].hex()), rp)
+    finally:
+        shutil.rmtree(tmpdir, ignore_errors=True)
+
+
 def run(ctx):
     run_fn(ctx)
     probe_full_catalog(ctx)
+    probe_catalog_names(ctx)
+    probe_inplace_boot_table(ctx)
     probe_nameless(ctx)
     probe_shared_hidden(ctx)
     probe_hidden_bit(ctx)
@@ -721,6 +863,10 @@ def replay(ctx, obj):
             probe_nameless(ctx)
         elif r.get('kind') == 'probe-shared-hidden':
             probe_shared_hidden(ctx)
+        elif r.get('kind') == 'probe-inplace-boot-table':
+            probe_inplace_boot_table(ctx)
+        elif r.get('kind') == 'probe-catalog-names':
+            probe_catalog_names(ctx)
         elif r.get('kind') == 'probe-full-catalog':
             probe_full_catalog(ctx)
         elif r.get('kind') == 'probe-hidden-bit':
